@@ -177,7 +177,9 @@ func (pd *perRawBitData) appendBitString(bytes []byte, bitsLength uint64, extens
 	}
 
 	if ub > 65535 {
+		// X.691 10.9.4.2: no upper bound below 64K - the length itself is encoded, not its offset from the lower bound
 		sizeRange = -1
+		lb = 0
 	}
 	sizes := (bitsLength + 7) >> 3
 	shift := (8 - bitsLength&0x7)
@@ -276,7 +278,9 @@ func (pd *perRawBitData) appendOctetString(bytes []byte, extensive bool, lowerBo
 	}
 
 	if ub > 65535 {
+		// X.691 10.9.4.2: no upper bound below 64K - the length itself is encoded, not its offset from the lower bound
 		sizeRange = -1
+		lb = 0
 	}
 
 	if sizeRange == 1 {
